@@ -315,7 +315,7 @@ type corruptJob struct {
 func corruptJobs(tier string) []corruptJob {
 	k := 60
 	if tier == "thorough" {
-		k = 1500
+		k = 900
 	}
 	jobs := []corruptJob{{"tiny", 0}, {"tiny", 1}}
 	for i := 0; i < k; i++ {
@@ -347,8 +347,23 @@ func corruptChild(args []string) int {
 	hugeBudget = [2]int{hb, hb}
 	outPath, progPath := args[7], args[8]
 	// a corrupted length must not be able to take the machine down
-	lim := syscall.Rlimit{Cur: 2 << 30, Max: 2 << 30}
-	syscall.Setrlimit(syscall.RLIMIT_AS, &lim)
+	if raceEnabled {
+		// the race runtime needs terabytes of address space: no RLIMIT_AS there,
+		// no deliberately huge lengths, only the resident-set guard below
+		hugeBudget = [2]int{0, 0}
+	} else {
+		lim := syscall.Rlimit{Cur: 2 << 30, Max: 2 << 30}
+		syscall.Setrlimit(syscall.RLIMIT_AS, &lim)
+	}
+	go func() {
+		for {
+			time.Sleep(100 * time.Millisecond)
+			if r := rssBytes(); r > 3<<30 {
+				fmt.Fprintf(os.Stderr, "codeclab-corrupt: resident set %d MiB exceeds the guard: out of memory\n", r>>20)
+				os.Exit(3)
+			}
+		}
+	}()
 	debug.SetMemoryLimit(768 << 20)
 	pf, err := os.Create(progPath)
 	if err != nil {
